@@ -528,6 +528,54 @@ def lsp_case(binpath, case, wsroot, libs_std, rng_seed, max_cursors, counters, s
             ch = ch + dc_ if dl == 0 else dc_
             check_loc(what, own_uri, {"start": {"line": line, "character": ch}, "end": {"line": line, "character": ch + ln}})
 
+    pool = {}            # entity id (completion item data) -> item, collected over the whole session
+    old_positions = []   # (file name, line, character) of symbols reported at earlier states
+
+    def stale(name):
+        """Use what the server told us at EARLIER states: resolve old completion items (their entity ids may point into
+        arenas that were dropped, re-created or shrunk), forge ids at and around the largest local id seen per arena, and
+        ask position requests at the positions of old symbols."""
+        if pool:
+            by_arena = {}
+            for dv in pool:
+                by_arena.setdefault(dv >> 32, []).append(dv & 0xFFFFFFFF)
+            todo = []
+            for a in sorted(by_arena)[-4:]:          # the most recently allocated arenas = project units
+                ls_ = sorted(by_arena[a])
+                top = ls_[-1]
+                for k in ls_[-10:]:
+                    todo.append(pool[(a << 32) | k])
+                tmpl = pool[(a << 32) | top]
+                for k in range(max(0, top - 20), top + 3):
+                    it = dict(tmpl)
+                    it["data"] = (a << 32) | k
+                    todo.append(it)
+            keys = list(pool)
+            for dv in rnd.sample(keys, min(10, len(keys))):
+                todo.append(pool[dv])
+            state["cursor"] = [name, 0, 0]
+            for it in todo:
+                counters["stale_resolves"] = counters.get("stale_resolves", 0) + 1
+                call("completionItem/resolve", it)
+        here = [p for p in old_positions if p[0] == name]
+        u = lsp.uri(os.path.join(wsroot, name))
+        for (_n, l, c) in rnd.sample(here, min(4, len(here))):
+            state["cursor"] = [name, l, c]
+            pos = {"line": l, "character": c}
+            for m in ("textDocument/definition", "textDocument/hover", "textDocument/prepareRename"):
+                r = call(m, {"textDocument": {"uri": u}, "position": pos})
+                if m == "textDocument/definition":
+                    locations(m, r, u)
+            locations("textDocument/references",
+                      call("textDocument/references", {"textDocument": {"uri": u}, "position": pos, "context": {"includeDeclaration": True}}), u)
+
+    def remember_symbols(name, syms):
+        for sy in syms or []:
+            rg = sy.get("selectionRange") or (sy.get("location") or {}).get("range")
+            if rg and len(old_positions) < 2000:
+                old_positions.append((name, rg["start"]["line"], rg["start"]["character"]))
+            remember_symbols(name, sy.get("children"))
+
     def queries(name, step):
         dc = docs[name]
         u = lsp.uri(os.path.join(wsroot, name))
@@ -561,8 +609,15 @@ def lsp_case(binpath, case, wsroot, libs_std, rng_seed, max_cursors, counters, s
             counters["completion_items"] += len(items)
             for it in items[:3]:
                 call("completionItem/resolve", it)
+            # remember the items: they are resolved again after later edits (stale entity ids)
+            for it in items:
+                dv = it.get("data")
+                if isinstance(dv, int) and len(pool) < 20000:
+                    pool.setdefault(dv, it)
         state["cursor"] = [name, 0, 0]
-        symbols("textDocument/documentSymbol", call("textDocument/documentSymbol", {"textDocument": td}), u)
+        ds = call("textDocument/documentSymbol", {"textDocument": td})
+        symbols("textDocument/documentSymbol", ds, u)
+        remember_symbols(name, ds)
         for qy in ("", "a", "std"):
             symbols("workspace/symbol", call("workspace/symbol", {"query": qy}), u)
         semantic("textDocument/semanticTokens/full", call("textDocument/semanticTokens/full", {"textDocument": td}), dc, u)
@@ -598,6 +653,7 @@ def lsp_case(binpath, case, wsroot, libs_std, rng_seed, max_cursors, counters, s
                                                  "contentChanges": [ch]})
             check_diags(ls.sync(timeout=180.0))
             counters["states"] += 1
+            stale(n)
             queries(n, k + 1)
         ls.shutdown()
     except lsp.ServerDied as ex:
@@ -647,7 +703,7 @@ def lsp_stage(res, fnd, cases, d, max_cursors):
     os.makedirs(os.path.join(libs_std, "none"), exist_ok=True)
     with open(os.path.join(libs_std, "none", "vhdl_ls.toml"), "w") as f:
         f.write("[libraries]\n")
-    counters = {"requests": 0, "cursors": 0, "states": 0, "locations": 0, "diagnostics": 0, "completion_items": 0, "cases": 0}
+    counters = {"requests": 0, "cursors": 0, "states": 0, "locations": 0, "diagnostics": 0, "completion_items": 0, "cases": 0, "stale_resolves": 0}
     lock = threading.Lock()
     todo = list(enumerate(cases))
 
@@ -662,7 +718,7 @@ def lsp_stage(res, fnd, cases, d, max_cursors):
             st = {}
             try:
                 lsp_case(binpath, case, os.path.join(d, "lsp_ws%d" % i), libs_std, seed() * 1000 + i,
-                         (3 if max_cursors <= 10 else 8) if case["family"] == "kinds-batch" else max_cursors, cnt, st)
+                         (3 if max_cursors <= 10 else 8) if case["family"].endswith("-batch") else max_cursors, cnt, st)
             except LspProblem as ex:
                 problem = ex
             except Exception as ex:          # a bug of this driver must not look like a pass
@@ -748,9 +804,14 @@ def main(tier, replay=None):
             # kind confusion through the server: the region batches (every name at every site of a region)
             regions = ("-s", "-d", "-c", "-l") if tier == "thorough" else ("-s", "-d")
             lsp_cases += [c for c in allc if c["family"] == "kinds-batch" and c["id"].endswith(regions)]
+            # duplicate-file scenarios (related information positions) and, thorough only, the literal batches
+            lsp_cases += [c for c in allc if c["family"] == "dups"][:(6 if tier == "thorough" else 2)]
+            if tier == "thorough":
+                lsp_cases += [c for c in allc if c["family"] == "lits-batch"]
         # the open findings through the server as well: own library std is found through the project's own config
         for c in json.load(open(corpus)) if os.path.exists(corpus) else []:
-            if c["id"] in ("F28-typed-into-standard", "F27-std_logic_1164-is-entity", "F5-lexer-hang", "F4-deadlock", "F3-stale-lint"):
+            if c["id"] in ("F28-typed-into-standard", "F27-std_logic_1164-is-entity", "F5-lexer-hang", "F4-deadlock", "F3-stale-lint",
+                           "dup-all-units-duplicated", "F55-signed-bitstring-len0"):
                 lsp_cases.append(c)
 
     samples = arena_correspondence(res, mbin, arenas, d)
@@ -802,7 +863,16 @@ def main(tier, replay=None):
         "for each of ~120 use sites (operand, condition, case selector and choice, range bound, attribute prefix, index, slice, actual, "
         "formal, waveform, target, initial value, constraint, type mark, call, selected prefix/suffix, label, instantiated unit ...) "
         "the identifier is replaced by every name in turn (quick: one name per kind, thorough: all ~70), queries on the edited line; "
-        "family kinds-batch = all sites of a region get the same name at once, for every name (also through vhdl_ls). Edits are applied through Source::change (7/8 ranged, 1/8 whole document) + update_source + analyse. "
+        "family kinds-batch = all sites of a region get the same name at once, for every name (also through vhdl_ls). LITERAL sweep "
+        "(families lits / lits-batch) on a project with ~90 literal sites of every target type (scalars, arrays, records, ranges, "
+        "bounds, choices, operands without target type, attribute arguments, conversions): ~760 literals and static expressions "
+        "(bit strings: base specifier x length prefix x value; based literals incl. illegal bases/digits/exponents; integers around "
+        "2^31..2^128; exponents; reals; physical literals; character/string literals; null; odd aggregates; attributes of scalars; "
+        "division by zero, shifts, 'val/'pos out of range; out-of-range indexes) — batches: every literal at all sites of a region; per "
+        "site a seed-rotated sample (thorough: every 2nd). Family dups: a file whose units all (or partly) duplicate another file of "
+        "the library, shifted / shrunk / emptied / restored on both sides + random edits. Every state also probes ids at the arena "
+        "sizes (entity_id_from_raw + format_entity = completionItem/resolve of a stale item); the LSP sessions keep old completion "
+        "items and symbols and resolve / query them after later edits. Edits are applied through Source::change (7/8 ranged, 1/8 whole document) + update_source + analyse. "
         "After every analysis: diagnostics, then for the edited file (+1 other; all files at the first and last state) document "
         "symbols, semantic tokens, workspace symbols, unresolved references, and at <=48 cursors (2/3 within 2 lines of the edit, "
         "token starts/ends/middles by an independent scanner) + 10 out-of-range cursors (beyond line end, beyond last line, u32::MAX): "
